@@ -26,3 +26,7 @@ def run(ctx, name="C04"):
         # to whichever peer it is addressed: the gate-forced interleavings of C02, each followed by a further call
         import props.C02 as c02
         c02.gates(ctx, name="C04-gates")
+        # the identity a session is given is the one its peer has proved: certificate chains of every shape (several
+        # certificates, foreign-signed, other algorithms) against the verifier and over real sockets - C03's harness
+        import props.C03 as c03
+        c03.run(ctx, with_registry=False)
